@@ -15,7 +15,7 @@ import (
 
 func init() {
 	Registry["C08"] = Set{
-		Explanation: "Decides structural clauses of the supervisor's restart semantics in the three state machines (one-for-one, all/rest-for-one, simple-one-for-one): S1 restart decision table — the restart point (the restart-intensity check whose 'not exceeded' edge produces a start action) is reachable only with strategy Permanent, or with strategy Transient on paths that passed reason != Normal and reason != Shutdown, never with Temporary, and never for a disabled child spec (enum value sets of the strategy refined along the switch edges, must-pass of the reason tests, unreachability from the disabled edge); S2 no termination goes unnoticed — every MessageExit* arm of the supervisor's loop hands the exit to the state machine's childTerminated and its action to handleAction on every path, and a failing handleAction ends the loop with that error; S3 handleAction forces LinkChild and LinkParent before every spawn and records the child before asking the state machine for the next action; a spawn error ends the supervisor; S4 sibling agreement on shutdown bookkeeping — wherever a state machine enters its shutdown mode it also sets the wait set and the shutdown reason on the same path, and in shutdown mode it terminates itself exactly when the wait set is empty. Added while probing: S3 the loop that sends the exits is left only by exhausting the list; S5 every spec handed out for starting is a fresh one or has its disabled flag tested false; S6 shutdown is entered only through a cause edge (non-child exit, significant child, intensity exceeded); S7 the Terminate action is produced only on an emptiness edge of the running/wait set; S8 the terminated child's slot is cleared where it is recognised; S9 (all/rest-for-one) the restart position is the child's own index, set under the rest-for-one edge, stops walk the spec list in reverse and starts forward, both from that position; S10 in the stopping phase every termination is compared with the restart position; S11 every explicit panic of a state machine is a listed belief. S12 when a state machine starts the supervisor's own termination, the loop that fills the wait set leaves a child out only because its slot is empty or it is the child that just terminated (every skip decision in the loop is a comparison of the child's pid with the empty/terminated pid or of its name with the terminated name). S13 where any other function parks pids in the wait set (DisableChild), childTerminated deletes the terminated pid on every path, in every mode. S14 every successful return of DisableChild has marked the spec disabled (or found it disabled). S15 a Terminate action produced because nobody is running has a cause on its path (non-child exit, significant child, shutdown in progress, intensity exceeded) or the auto-shutdown option. S16 = C04.L6 the link that reports a child's termination exists before the child can terminate.",
+		Explanation: "Decides structural clauses of the supervisor's restart semantics in the three state machines (one-for-one, all/rest-for-one, simple-one-for-one): S1 restart decision table — the restart point (the restart-intensity check whose 'not exceeded' edge produces a start action) is reachable only with strategy Permanent, or with strategy Transient on paths that passed reason != Normal and reason != Shutdown, never with Temporary, and never for a disabled child spec (enum value sets of the strategy refined along the switch edges, must-pass of the reason tests, unreachability from the disabled edge); S2 no termination goes unnoticed — every MessageExit* arm of the supervisor's loop hands the exit to the state machine's childTerminated and its action to handleAction on every path, and a failing handleAction ends the loop with that error; S3 handleAction forces LinkChild and LinkParent before every spawn and records the child before asking the state machine for the next action; a spawn error ends the supervisor; S4 sibling agreement on shutdown bookkeeping — wherever a state machine enters its shutdown mode it also sets the wait set and the shutdown reason on the same path, and in shutdown mode it terminates itself exactly when the wait set is empty. Added while probing: S3 the loop that sends the exits is left only by exhausting the list; S5 every spec handed out for starting is a fresh one or has its disabled flag tested false; S6 shutdown is entered only through a cause edge (non-child exit, significant child, intensity exceeded); S7 the Terminate action is produced only on an emptiness edge of the running/wait set; S8 the terminated child's slot is cleared where it is recognised; S9 (all/rest-for-one) the restart position is the child's own index, set under the rest-for-one edge, stops walk the spec list in reverse and starts forward, both from that position; S10 in the stopping phase every termination is compared with the restart position; S11 every explicit panic of a state machine is a listed belief. S12 when a state machine starts the supervisor's own termination, the loop that fills the wait set leaves a child out only because its slot is empty or it is the child that just terminated (every skip decision in the loop is a comparison of the child's pid with the empty/terminated pid or of its name with the terminated name). S13 where any other function parks pids in the wait set (DisableChild), childTerminated deletes the terminated pid on every path, in every mode. S14 every successful return of DisableChild has marked the spec disabled (or found it disabled). S15 a Terminate action produced because nobody is running has a cause on its path (non-child exit, significant child, shutdown in progress, intensity exceeded) or the auto-shutdown option. S16 = C04.L6 the link that reports a child's termination exists before the child can terminate. S17 in every strategy the restart-intensity bookkeeping is reached only behind the not-disabled edge of the terminated child's disabled flag (the intensity counts restarts; a disabled child is not restarted). S18 in the strategy functions every assignment to a field of the answered action is followed by the return of that action without a conditional branch outside a loop in between (a field assigned in a branch that is not taken to its return leaks into a later answer: an empty terminate list with a reason is read as 'terminate the supervisor'). S19 in the all-for-one/rest-for-one strategy every return of childStarted taken in the starting mode either answers with the next child to start or resets the mode.",
 		NotDecided: []string{
 			"which children run after an arbitrary history (the behavioural core of the property)",
 			"the full start/stop choreography with KeepOrder over several rounds (only the walk direction, the restart position, the shutdown causes and the emptiness condition of self-termination are decided)",
@@ -368,6 +368,9 @@ func runC08(p *load.Program, r *core.Report) {
 		c04SpawnLinkChild(a, r, "C08.S16 child-linked-before-it-can-terminate")
 	}
 	c08DisableMarks(p, r)
+	c08IntensityCountsRestartsOnly(p, r)
+	c08ActionAssignedWhereReturned(p, r)
+	c08StartModeEnds(p, r)
 
 	// ---- S4
 	rule4 := "C08.S4 shutdown-bookkeeping"
